@@ -21,11 +21,13 @@ import (
 	"bytes"
 	"context"
 	"encoding/json"
+	"errors"
 	"fmt"
 	"os"
 	"runtime"
 	"sort"
 	"sync"
+	"sync/atomic"
 	"testing"
 	"time"
 
@@ -86,6 +88,16 @@ type Recycle struct {
 	// context is cancelled right after the name has been scheduled again (so the
 	// old job goroutine may see that instead of the cancel signal).
 	OldDue string `json:"old_due,omitempty"`
+	// OldEnd (periodic old job only): how the old incarnation ends after the
+	// instance that was in progress at the cancel: "" through the cancel signal;
+	// "nomore" / "error": its runtime function answers ErrNoMoreInstances / another
+	// error at its next call (the loop asks before it looks at the cancel signal);
+	// "ctx": its parent context is cancelled right after the name has been scheduled
+	// again (the select then has both the context and the cancel signal ready).
+	OldEnd string `json:"old_end,omitempty"`
+	// NewPeriodic: the job scheduled under the name is periodic (first runtime
+	// NewOffUs later, then every 3 ms for 10 ms).
+	NewPeriodic bool `json:"new_periodic,omitempty"`
 }
 
 // Case is a program.
@@ -198,6 +210,8 @@ func genCase(t *rapid.T, mode string) Case {
 			c.PeriodUs = 3000
 			c.HorizonUs = 400000
 			c.JobDurUs = rapid.SampledFrom([]int64{1500, 3000}).Draw(t, "jobDur")
+			c.Recycle.OldEnd = rapid.SampledFrom([]string{"", "nomore", "error", "ctx"}).Draw(t, "oldEnd")
+			c.Recycle.NewPeriodic = rapid.Bool().Draw(t, "newPeriodic")
 		} else {
 			c.TicksUs = []int64{50000}
 			if mode == "M2" {
@@ -316,6 +330,8 @@ func sanitise(c *Case) {
 		}
 		if c.Periodic {
 			c.Recycle.OldDue = ""
+		} else {
+			c.Recycle.OldEnd, c.Recycle.NewPeriodic = "", false
 		}
 		if !c.Periodic && c.Recycle.OldDue != "timer" && c.TicksUs[0] < 50000 {
 			c.TicksUs[0] = 50000
@@ -726,11 +742,22 @@ func runRep(c *Case, base int, can *canary, leaked map[string]bool, leakedSelect
 
 	var hmu sync.Mutex
 	var t0 time.Time
+	var recycled atomic.Bool
 	next := 0
 	runtimeFunc := func(context.Context) (time.Time, error) {
 		hmu.Lock()
 		defer hmu.Unlock()
 		now := time.Since(t0)
+		if recycled.Load() && c.Recycle != nil {
+			switch c.Recycle.OldEnd {
+			case "nomore":
+				o.exhausted = true
+				return time.Time{}, scheduler.ErrNoMoreInstances
+			case "error":
+				o.exhausted = true
+				return time.Time{}, errors.New("scripted runtime function error")
+			}
+		}
 		var v time.Duration
 		switch {
 		case next < len(o.ticks):
@@ -801,11 +828,32 @@ func runRep(c *Case, base int, can *canary, leaked map[string]bool, leakedSelect
 			o.ops[0].kind = "cancel"
 			callOp(svc, cancelCtx, "cancel", "", t0, &o.ops[0])
 			rc.cancelErr = o.ops[0].err
+			recycled.Store(true)
 			rec2 = &recorder{t0: t0}
 			at := time.Now().Add(us(c.Recycle.NewOffUs))
 			rc.newRuntime = at.Sub(t0)
-			rc.schedErr = svc.ScheduleJob(bg, "c02", jobName, at, rec2.job)
-			if c.Recycle.OldDue == "ctx" {
+			if c.Recycle.NewPeriodic {
+				newEnd := rc.newRuntime + 10*time.Millisecond
+				asked := 0
+				var nmu sync.Mutex
+				rc.schedErr = svc.SchedulePeriodicJob(bg, "c02", jobName, func(context.Context) (time.Time, error) {
+					nmu.Lock()
+					defer nmu.Unlock()
+					now := time.Since(t0)
+					asked++
+					switch {
+					case asked == 1:
+						return at, nil
+					case now >= newEnd:
+						return time.Time{}, scheduler.ErrNoMoreInstances
+					}
+					k := int64((now-rc.newRuntime)/(3*time.Millisecond)) + 1
+					return at.Add(time.Duration(k) * 3 * time.Millisecond), nil
+				}, rec2.job)
+			} else {
+				rc.schedErr = svc.ScheduleJob(bg, "c02", jobName, at, rec2.job)
+			}
+			if c.Recycle.OldDue == "ctx" || c.Recycle.OldEnd == "ctx" {
 				cancelCtx()
 			}
 		}
@@ -925,6 +973,9 @@ func runRep(c *Case, base int, can *canary, leaked map[string]bool, leakedSelect
 		// new job (a periodic job that ignores the cancel goes on to its horizon and
 		// is then seen by the ordinary clauses)
 		lastTick = o.rc.newRuntime
+	}
+	if o.rc != nil && c.Recycle.NewPeriodic {
+		lastTick = o.rc.newRuntime + 15*time.Millisecond
 	}
 	progress := func() [3]int {
 		hmu.Lock()
@@ -1326,7 +1377,7 @@ func judgeRecycle(c *Case, o *obs) (vs []verdict) {
 	} else if !c.Periodic && o.ops[0].end+margin > o.ticks[0] {
 		return nil
 	}
-	if c.Periodic && o.exhausted {
+	if c.Periodic && o.exhausted && c.Recycle.OldEnd == "" {
 		return nil
 	}
 	if class != "" {
@@ -1370,6 +1421,31 @@ func judgeRecycle(c *Case, o *obs) (vs []verdict) {
 		return vs
 	}
 	n := len(rc.runs)
+	if c.Recycle.NewPeriodic {
+		// the new incarnation ticks a few times and then finishes by itself
+		clearly := pending && rc.followEnd+margin <= rc.newRuntime
+		switch c.Recycle.Follow {
+		case "timer":
+			if n == 0 {
+				vs = append(vs, verdict{"recycled-job-not-run", "the new periodic job was not cancelled and never ran: " + what})
+			}
+		case "run":
+			if clearly && rc.followErr != nil {
+				vs = append(vs, verdict{"recycled-job-run-now-refused", "RunJob on the pending new job failed: " + what})
+			}
+			if n == 0 {
+				vs = append(vs, verdict{"recycled-job-not-run", "the new periodic job was not cancelled and never ran: " + what})
+			}
+		case "cancel":
+			if clearly && rc.followErr != nil {
+				vs = append(vs, verdict{"recycled-job-cancel-refused", "CancelJob on the pending new job failed: " + what})
+			}
+			if clearly && rc.followErr == nil && rc.parkedBefore && !o.perturbed && n != 0 {
+				vs = append(vs, verdict{"recycled-job-ran-after-cancel", "the new job was cancelled clearly before its time and ran: " + what})
+			}
+		}
+		return vs
+	}
 	switch c.Recycle.Follow {
 	case "timer":
 		if n != 1 {
@@ -1526,6 +1602,12 @@ func labels(c *Case) []string {
 		ls = append(ls, "cancel-then-reschedule-same-name", "cancel-then-reschedule:follow-"+c.Recycle.Follow)
 		if c.Recycle.OldDue != "" {
 			ls = append(ls, "cancel-then-reschedule:old-job-"+c.Recycle.OldDue+"-arm-may-win")
+		}
+		if c.Recycle.OldEnd != "" {
+			ls = append(ls, "cancel-then-reschedule:old-periodic-job-ends-by-"+c.Recycle.OldEnd)
+		}
+		if c.Recycle.NewPeriodic {
+			ls = append(ls, "cancel-then-reschedule:new-job-periodic")
 		}
 	}
 	for _, op := range c.Ops {
